@@ -103,6 +103,8 @@ Definition to_f32c (f : spec_float) : spec_float :=
   let y := to_f32 f in if wfb 24 128 y then y else S754_nan.
 
 (* the unsigned bit pattern stored for value p in an element of kind k; None = TypeError
+   (the bit pattern of a stored NaN is implementation-defined in ECMA-262; goja stores Go's
+   math.NaN() = 0x7FF8000000000001, and 0x7FC00000 in a Float32 element)
    (a BigInt given to a Number kind or the reverse) *)
 Definition raw_bits (m : mode) (k : kind) (p : pv) : option Z :=
   match k, p with
@@ -111,7 +113,7 @@ Definition raw_bits (m : mode) (k : kind) (p : pv) : option Z :=
   | Int16, PNum f | Uint16, PNum f => Some (wrap_u 16 (int_of_float m f))
   | Int32, PNum f | Uint32, PNum f => Some (wrap_u 32 (int_of_float m f))
   | Float32, PNum f => Some (to_bits32 (to_f32c f))
-  | Float64, PNum f => Some (to_bits f)
+  | Float64, PNum f => Some (if is_nan f then 9221120237041090561 else to_bits f)
   | BigInt64, PBig z | BigUint64, PBig z => Some (wrap_u 64 z)
   | _, _ => None
   end.
